@@ -55,8 +55,51 @@ claim(
     "DESIGN.md §7 C08",
 )
 
+claim(
+    "C02",
+    "Lean 4 proof (soundness and completeness of the parser model w.r.t. an inductive grammar, separator-exchange, token-cover) + regenerated grammar/lexer tables + differential correspondence with sly's lexer and parser",
+    "Theorems C02_sound, C02_complete, C02_unique, C02_accepts_iff, C02_no_fuel_error prove that the parser model accepts a token string exactly when the Jaqal grammar (an independent inductive derivation relation) derives it, with a unique tree; C02_sep_exchange(_semi/_bar/_result) that exchanging any subset of `;`/`|` separators with newlines never changes the result; C02_no_drop that lexing covers the text with blanks, comments and exactly the reported tokens in order (nothing outside a comment is dropped); C02_error_pos_partial that a reported error position is a token start of the text, the offset where lexing fails, or EOF. The model is tied to /repo by table regeneration (88 productions, token rules, zero sly conflicts) and by exact comparison of acceptance, S-expression and (line, column) on grammar-directed programs under random layout, token and character mutants and noise.",
+    COMMON_NOTE + "Not proved (kept as named propositions, covered by direct oracles on the real code): the viability half of the error-position statement (C02_error_pos_full) and the text-level comment/blank insertion statement (C02_layout_full). sly's LALR construction and Python `re` are trusted.",
+    "DESIGN.md §7 C02",
+)
+claim(
+    "C04",
+    "Lean 4 proof (substitution lemma: evaluation under call bindings = evaluation of the substituted body; induction over macro table and statements) + whole-dump differential correspondence with expand_macros",
+    "Theorems C04_meaning, C04_no_calls, C04_header, C04_shape, C04_arity(_call/_first), C04_idempotent prove for every well-formed circuit (any number of macros, any acyclic call graph, parameters used as qubit / number / index / loop count / subcircuit count / passed on, any block context) and every override environment that macro expansion preserves the specification-level gate meaning, leaves no macro call, carries header data over unchanged, yields a spliced normal form that is a fixed point of the pass, and rejects wrong-arity calls.",
+    COMMON_NOTE + "WellFormed is an explicit decidable predicate capturing what the builder guarantees; CPython's recursion limit is not modelled.",
+    "DESIGN.md §7 C04",
+)
+claim(
+    "C09",
+    "Lean 4 proof (the pass equals an explicit tree map; flat-sequence lemma) + differential correspondence with expand_subcircuits + direct execution oracle on both spellings",
+    "Theorems C09_shape(_subcircuit/_other/_body), C09_none_left, C09_defs(_native), C09_header, C09_flat(_subcircuit/_sem), C09_idempotent, C09_total, C09_param_rejected prove that every subcircuit block (in the body and in every macro body) becomes a sequential block prepare :: body ++ [measure] with the native / caller-supplied / default definitions, nothing else changes, none remains, and the flat gate sequence is the input's with each subcircuit bracketed by prepare/measure. That `subcircuit { B }` is executed and reported like `prepare_all; B; measure_all` follows from C08/C12 (walkers refine to flat/unrolled order) and is checked on the real emulator and output parser for both spellings of generated programs.",
+    COMMON_NOTE + "The execution half is a corollary argued through C08/C12 plus a direct oracle, not a single Lean theorem over the whole pipeline.",
+    "DESIGN.md §7 C09",
+)
+claim(
+    "C11",
+    "Lean 4 proof (frame theorem over a heap model; `decide` over an effect-site table regenerated from the Python AST on every run) + dynamic history oracle with deep snapshots",
+    "C11_frame / C11_history / C11_static prove, in a heap model with object identity, that a call all of whose writes target objects it allocated itself leaves every pre-existing object unchanged, and that any history of such calls on a shared object gives the results of the calls on fresh copies. C11_sites_safe discharges the hypothesis for the table of all 268 mutation sites of the anchored modules, which a translator regenerates from /repo's source on every run (a new write through an input-rooted receiver fails the obligation). Because the provenance classification is syntactic and trusted, random call histories over all ten operations on one shared circuit are checked with deep structural snapshots and compared with fresh-copy results.",
+    COMMON_NOTE + "This is the property where the theorem carries least (effect summary, syntactic provenance); the history oracle carries the behavioural weight. Mutation inside C code is invisible to the scanner.",
+    "DESIGN.md §7 C11",
+)
+claim(
+    "C15",
+    "Lean 4 proof (induction on bit strings; exact rational arithmetic) + exhaustive/differential correspondence with jaqalpaq.core.result",
+    "Theorems C15_as_str_length, C15_as_str_bit, C15_roundtrip(_all/_conv), C15_view_keys(_nodup), C15_histogram(_sum), C15_accept_all, C15_normalize(_ok_iff/_id/_reject) prove for every register size k and outcome n < 2^k that as_str has exactly k characters with character i = bit i of n (qubit 0 = LSB = leftmost), that string and integer outputs round-trip, that the *_by_str views list each of the 2^k outcomes exactly once in integer order, that relative frequencies are readout counts, and (over exact rationals) that normalisation yields non-negative probabilities summing to one exactly when the constructor does not raise. Correspondence is exhaustive for k ≤ 7 (quick) / k ≤ 11 (thorough), sampled up to k = 40.",
+    COMMON_NOTE + "Float rounding in the renormalisation (sum = 1 only to ~1 ulp) is runtime behaviour outside the model; compared with tolerance 1e-12. The cutoff constants are decimal in the model (2e-6, 1e-13); the doubles differ by < 1e-22.",
+    "DESIGN.md §7 C15",
+)
+claim(
+    "C18",
+    "Lean 4 proof (total case analysis over all values; permutation lemma for keyword calls; induction over gate-set dictionaries) + differential correspondence with GateDefinition / add_idle_gates / stretched_gates and the real emulator",
+    "Theorems C18_kw(_conv), C18_accept(_index/_stmt), C18_fits_table, C18_mixed, C18_reject_class, C18_idle(_writes/_lookup/_exact/_special/_emu/_state), C18_stretch(_gate/_emu/_sound/_set/_update) prove for every signature and argument list that positional and keyword calls give the same statement, that a call is accepted exactly when arity matches and every argument fits its parameter's kind per an independently stated table (for every value), that rejections are JaqalErrors, that every non-prepare/measure gate gets an idle gate with the same signature, no qubits and no effect on the state (via C03_idle), and that a stretched gate takes one trailing float and calls exactly its own parent's unitary for every stretch value.",
+    COMMON_NOTE + "Unitaries are abstract functions in the model; nan/inf are checked on the real code only.",
+    "DESIGN.md §7 C18",
+)
+
 ALL = [f"C{n:02d}" for n in range(1, 21)]
-READY = {"C03", "C08", "C12", "C19"}  # checks that are built, pass on the unchanged tree and are registered
+READY = {"C02", "C03", "C04", "C08", "C09", "C11", "C12", "C15", "C18", "C19"}  # checks that are built, pass on the unchanged tree and are registered
 
 
 def main():
